@@ -827,7 +827,7 @@ harnesses! {
     { @nostub quorum_vote_5_5, "C11", thorough, unwind = 12,
       "JointConfig::vote_result for halves of 5 and 5 voters: symbolic ids, symbolic yes/no/missing per id; won/lost/pending oracle",
       |s| c11::vote_result(s, 5, 5) }
-    { @nostub quorum_ci_8_0_cap9, "C11", quick, unwind = 20,
+    { @nostub quorum_ci_8_0_cap9, "C11,C04", quick, unwind = 20,
       "committed_index for a single set of 8 voters with ids 1..=8 (the heap-allocated path for more than 7 voters; built with the 9-slot container shim): symbolic acked indexes below 2^12, some ids unknown to the indexer, counting oracle (plain quorum commit)",
       |s| c11::committed_index_concrete_ids(s, 8, 0) }
     { @nostub quorum_ci_8_0_symids_cap9, "C11", thorough, unwind = 11,
